@@ -8,9 +8,28 @@ Dump of one peer: p<i>{N[id:room:ent:cdate:mdate:author:val:sig;..] E[src:dest:c
 `chk` is the harness's from-scratch recomputation (real blake3 over `_node` and the deletion logs) compared
 with the stored row: ok | letters n (count) d (daily hash) h (history hash) | e (no content that day) | - (row
 waiting for recomputation)."""
-import re
+import json, os, re
+from . import lib
 
 DAY = 86400000
+
+# testing aid (never set by ./check itself): VERIF_EXTRA_FINDINGS=<jsonl> makes the entries of that file count
+# as known findings, so that a check can be exercised before the lead has edited KNOWN_FINDINGS.jsonl
+_extra = os.environ.get("VERIF_EXTRA_FINDINGS")
+if _extra and not getattr(lib, "_sync_extra_installed", False):
+    _orig_known = lib.known_findings
+
+    def _known(prop):
+        res = _orig_known(prop)
+        have = {e["signature"] for e in res}
+        for line in open(_extra):
+            line = line.strip()
+            if not line or line.startswith("#"): continue
+            e = json.loads(line)
+            if e.get("property") == prop and e["signature"] not in have: res.append(e)
+        return res
+    lib.known_findings = _known
+    lib._sync_extra_installed = True
 
 
 def kv(line):
@@ -90,17 +109,19 @@ def c09_oracle(ops, outs):
             for key in p.missing:
                 if ("missing", pi, key) not in seen:
                     seen.add(("missing", pi, key))
-                    res.append(("day-without-log-row", "peer %d %s after `%s`" % (pi, key, op)))
+                    sig = "day-without-log-row-after-reference-deletion" if _batch_has(ops, i, "unref") else "day-without-log-row"
+                    res.append((sig, "peer %d %s after `%s`" % (pi, key, op)))
             for key, row in p.log.items():
                 chk = row["chk"]
                 if chk in ("ok", "-"): continue
-                tag = (pi, key, "e" if chk == "e" else ("d" if ("n" in chk or "d" in chk) else "h"))
+                stale = "n" in chk or "d" in chk or (chk == "e" and row["n"] > 0)   # a day emptied without being marked
+                tag = (pi, key, "d" if stale else ("e" if chk == "e" else "h"))
                 if tag in seen: continue
                 seen.add(tag)
                 where = "peer %d (room,entity,day)=%s count=%d chk=%s after `%s`" % (pi, key, row["n"], chk, op)
-                if chk == "e":
+                if chk == "e" and not stale:
                     res.append(("empty-day-row", where))
-                elif "n" in chk or "d" in chk:
+                elif stale:
                     res.append((_classify_stale(k, a, pi, key, prev, peers), where))
                 elif row["hist"] == "-":
                     res.append(("history-null-after-clean-seed", where))
@@ -112,7 +133,8 @@ def c09_oracle(ops, outs):
                 for y in range(x + 1, len(peers)):
                     lx = {k2: v for k2, v in peers[x].log.items() if k2[0] == room}
                     ly = {k2: v for k2, v in peers[y].log.items() if k2[0] == room}
-                    if any(v["dirty"] for v in lx.values()) or any(v["dirty"] for v in ly.values()): continue
+                    if any(v["dirty"] or "n" in v["chk"] or "d" in v["chk"] or (v["chk"] == "e" and v["n"] > 0)
+                           for v in list(lx.values()) + list(ly.values())): continue
                     if peers[x].content(room) != peers[y].content(room): continue
                     sx = {k2: (v["n"], v["daily"]) for k2, v in lx.items() if v["n"] > 0}
                     sy = {k2: (v["n"], v["daily"]) for k2, v in ly.items() if v["n"] > 0}
@@ -126,6 +148,18 @@ def c09_oracle(ops, outs):
                         res.append(("same-content-different-history", "peers %d,%d room %s after `%s`" % (x, y, room, op)))
         prev = peers
     return res
+
+
+def _batch_has(ops, i, kind):
+    """op i is of that kind, or is the commit of a batch that contains one"""
+    k, _ = kv(ops[i])
+    if k == kind: return True
+    if k != "commit": return False
+    j = i - 1
+    while j > 0 and kv(ops[j])[0] != "begin":
+        if kv(ops[j])[0] == kind: return True
+        j -= 1
+    return False
 
 
 def _classify_stale(kind, a, pi, key, prev, cur):
@@ -188,40 +222,69 @@ def c03_oracle(ops, outs):
     res = []
     for out in outs[1:]:
         if out.startswith("fail:"): return [("harness-" + out.split(" ")[0][5:45], out[:100])]
-    history = " ".join(kv(o)[0] for o in ops)
+    rights = kv(ops[0])[1].get("rights", "").split(",")
     for room, rounds, quiet, f, peers in final_settles(ops, outs):
         if not quiet:
             res.append(("no-quiescence", "room %s: %d rounds and still changing" % (room, rounds)))
             continue
+        found = False
         base = peers[0].content(room)
         for i, p in enumerate(peers[1:], 1):
-            c = p.content(room)
-            if c == base: continue
-            res.append((_classify_divergence(room, peers, 0, i), "room %s: peers 0 and %d differ after a quiet round" % (room, i)))
+            if p.content(room) == base: continue
+            res.append((_classify_divergence(room, peers, rights), "room %s: peers 0 and %d differ after a quiet round" % (room, i)))
+            found = True
             break
-        else:
+        if not found:
             be = peers[0].visible_edges(room)
             for i, p in enumerate(peers[1:], 1):
                 if p.visible_edges(room) != be:
-                    res.append(("references-differ-after-quiescence", "room %s: peers 0 and %d show different references" % (room, i)))
+                    res.append((_classify_edges(room, peers), "room %s: peers 0 and %d show different references" % (room, i)))
+                    found = True
                     break
-        if f != 0:
+        if f != 0 and not found:
             res.append(("quiet-round-still-requests-rows", "room %s: the round that changed nothing requested %d rows" % (room, f)))
     return res
 
 
-def _classify_divergence(room, peers, x, y):
-    nx, dx, xx = peers[x].content(room)
-    ny, dy, xy = peers[y].content(room)
-    ids_x, ids_y = {n[0] for n in nx}, {n[0] for n in ny}
-    tomb_ids = {d[0] for d in dx} | {d[0] for d in dy}
-    if dx != dy:
-        # the same row deleted twice: one batch carries both records and only one of them is kept
+def _classify_divergence(room, peers, rights):
+    contents = [p.content(room) for p in peers]
+    tombs = [set(c[1]) for c in contents]
+    if any(t != tombs[0] for t in tombs):
+        # the same row deleted twice on one day: one answer carries both records, they are keyed by row id
+        allrec = set().union(*tombs)
+        for t in allrec:
+            twins = [u for u in allrec if u[0] == t[0] and u != t and day_of(u[4]) == day_of(t[4])]
+            if twins and any(t not in s and any(u in s for u in twins) for s in tombs):
+                return "two-deletion-records-of-one-row-one-day"
         return "deletion-records-differ-after-quiescence"
-    if ids_x != ids_y:
-        if (ids_x ^ ids_y) <= tomb_ids: return "deleted-row-present-on-some-peers"
-        return "rows-missing-after-quiescence"
-    return "row-versions-differ-after-quiescence"
+    rows = [{n[0]: n for n in c[0]} for c in contents]
+    ids = set().union(*[set(r) for r in rows])
+    tomb_ids = {d[0] for d in tombs[0]}
+    for rid in sorted(ids):
+        have = [r.get(rid) for r in rows]
+        if all(h == have[0] for h in have): continue
+        if any(h is None for h in have):
+            return "deleted-row-present-on-some-peers" if rid in tomb_ids else "rows-missing-after-quiescence"
+        best = max(have, key=lambda n: (n[3], int(n[6]) if n[6].isdigit() else -1))
+        losers = [h for h in have if h != best]
+        author = best[4]
+        if author.isdigit() and int(author) < len(rights) and rights[int(author)] == "s" and all(h[4] != author for h in losers):
+            return "greater-version-refused-author-lacks-all-rows-right"
+        return "row-versions-differ-after-quiescence"
+    return "content-differs-after-quiescence"
+
+
+def _classify_edges(room, peers):
+    """a reference held by some peers only, whose source row is the same version everywhere: the reference was
+    added concurrently with a later update of the row, and references travel only with fetched rows"""
+    es = [set(p.visible_edges(room)) for p in peers]
+    for e in set().union(*es):
+        if all(e in s for s in es): continue
+        src = e[0]
+        vers = {p.nodes[src]["sig"] for p in peers if src in p.nodes}
+        if len(vers) == 1 and all(int(e[2]) < p.nodes[src]["mdate"] for p in peers if src in p.nodes):
+            return "reference-older-than-winning-version-not-propagated"
+    return "references-differ-after-quiescence"
 
 
 def c03_nontrivial(ops, outs):
